@@ -122,10 +122,10 @@ def discharge(spec, workroot, keep=False, extra_cbmc=None, trace_props=None, sol
     if extra_cbmc:
         cbmc += extra_cbmc
     res["cbmc_cmd"] = ' '.join(cbmc)
-    # memoisation of LONG solver runs only: the verification query (lowered unit generated from the current tree, every shim header,
-    # both tool command lines, tool version) is hashed; an identical query already decided in this sandbox is not solved again.
+    # memoisation of LONG solver runs only: the verification query (the PREPROCESSED lowered unit generated from the current tree, i.e. with
+    # exactly the shim headers it includes, both tool command lines, tool version) is hashed; an identical query already decided in this sandbox is not solved again.
     # Extraction, lowering, goto-cc and goto-instrument always run.  VERIF_NOCACHE=1 disables the reuse.
-    ckey = query_key(tu.text(), res["instrument_cmd"], res["cbmc_cmd"])
+    ckey = query_key(tu.text(), res["instrument_cmd"], res["cbmc_cmd"], wd)
     cfile = os.path.join(VERIF, '.work', 'qcache', ckey + '.json')
     if os.environ.get('VERIF_NOCACHE') != '1' and os.path.exists(cfile):
         try:
@@ -260,16 +260,31 @@ CACHE_MIN_S = 60
 _tool_version = None
 
 
-def query_key(text, icmd, ccmd):
+def query_key(text, icmd, ccmd, wd=None):
+    """hash of the complete verification query: the PREPROCESSED unit (i.e. the lowered text plus exactly the shim headers it
+    includes), both tool command lines and the tool version"""
     global _tool_version
     import hashlib
     if _tool_version is None:
         _tool_version = subprocess.run(['cbmc', '--version'], stdout=subprocess.PIPE).stdout.decode().strip()
     h = hashlib.sha256()
-    h.update(text.encode()); h.update(icmd.encode()); h.update(ccmd.encode()); h.update(_tool_version.encode())
-    for fn in sorted(os.listdir(SHIM)):
-        if fn.endswith('.h'):
-            h.update(fn.encode()); h.update(open(os.path.join(SHIM, fn), 'rb').read())
+    pre = None
+    if wd is not None:
+        try:
+            p = subprocess.run(['goto-cc', '-E', '-I', SHIM, '-DLIBSIM_VERIF_LOWERED', 'unit.c'], cwd=wd, stdout=subprocess.PIPE,
+                               stderr=subprocess.DEVNULL, timeout=60)
+            if p.returncode == 0 and p.stdout:
+                pre = p.stdout
+        except Exception:
+            pre = None
+    if pre is not None:
+        h.update(b'pre:'); h.update(pre)
+    else:
+        h.update(text.encode())
+        for fn in sorted(os.listdir(SHIM)):
+            if fn.endswith('.h'):
+                h.update(fn.encode()); h.update(open(os.path.join(SHIM, fn), 'rb').read())
+    h.update(icmd.encode()); h.update(ccmd.encode()); h.update(_tool_version.encode())
     return h.hexdigest()
 
 
